@@ -321,6 +321,12 @@ func servePrincipalPropfind(w http.ResponseWriter, r *http.Request, options *Ser
 	if err != nil {
 		return err
 	}
+	// The principal has no members to report, but the header must be valid
+	if s := r.Header.Get("Depth"); s != "" {
+		if _, err := internal.ParseDepth(s); err != nil {
+			return &internal.HTTPError{Code: http.StatusBadRequest, Err: err}
+		}
+	}
 	props := map[xml.Name]internal.PropFindFunc{
 		internal.ResourceTypeName: func(*internal.RawXMLValue) (interface{}, error) {
 			return internal.NewResourceType(principalName), nil
